@@ -205,4 +205,114 @@ theorem model_fragment_spreads_eq_spec {S : Schema} {D : Document} (h : WellScop
   intro o ho
   exact spreadOcc_ok hu (hocc o ho).1
 
+
+
+/-- **Values group** (validate_values.go = §5.6.1 – §5.6.4), all well-scoped documents: the model
+    reports a primary error iff an argument value (of a field or directive, at any depth) or a
+    variable default value does not have the expected type — including unknown, repeated and missing
+    required input object fields. -/
+theorem model_values_eq_spec {S : Schema} {D : Document} (h : WellScoped S D) :
+    primaryFree (Model.validateValues S D) = Spec.valuesCorrect S D := by
+  unfold Spec.valuesCorrect Model.validateValues Spec.argSites Spec.selOccs
+  rw [primaryFree_flatMap, List.all_append, all_flatMap, all_flatMap, all_flatMap, all_and, all_and]
+  apply all_congr_mem
+  intro d hd
+  obtain ⟨e, hocc⟩ := def_occs h hd
+  rw [primaryFree_append, primaryFree_append, defaultValueErrors_ok, valuesDirectives_ok, varDefsOf_eq, defDirs_eq,
+    values_set_flat, e, primaryFree_flatMap]
+  have : (Spec.occDef S d).all (fun o => primaryFree (valuesOcc S o)) =
+      (Spec.occDef S d).all (fun o => (Spec.occArgSites S o).all (Spec.siteValuesOk S)) := by
+    apply all_congr_mem
+    intro o ho
+    exact valuesOcc_ok h.wf (hocc o ho).1 (hocc o ho).2
+  rw [this]
+  cases (Spec.varDefsOf d).all (Spec.defaultOk S) <;>
+  cases (Spec.dirArgSites S (Spec.defDirs d)).all (Spec.siteValuesOk S) <;>
+  cases (Spec.occDef S d).all (fun o => (Spec.occArgSites S o).all (Spec.siteValuesOk S)) <;> rfl
+
+/-- **Operations group, partial** (validate_operations.go:24-35, 47-58 = §5.2.1.1 operation name
+    uniqueness, §5.2.2.1 lone anonymous operation, supported operation type), all documents, no
+    hypothesis. Full statement (not proved): also `subscriptionErrors … = [] ↔
+    Spec.singleRootSubscription D` — missing is the relation between the model's collection of
+    root fields (visited selection sets identified by position, explicit fuel) and the
+    specification's (visited fragments by name); that rule is checked differentially. -/
+theorem model_operations_eq_spec_partial (S : Schema) (D : Document) :
+    (operationLoopErrors S [] D ++ loneAnonymousErrors D = []) ↔
+      (Spec.opNameUnique D = true ∧ Spec.loneAnonymous D = true ∧ Spec.opTypeSupported S D = true) := by
+  rw [List.append_eq_nil_iff, operationLoop_nil, loneAnonymous_nil]
+  unfold Spec.opNameUnique Spec.opTypeSupported
+  simp only [List.not_mem_nil, not_false_eq_true, implies_true, true_and]
+  constructor
+  · rintro ⟨⟨h1, h2⟩, h3⟩; exact ⟨h1, h3, h2⟩
+  · rintro ⟨h1, h2, h3⟩; exact ⟨⟨h1, h3⟩, h2⟩
+
+/-- **Variables group, definitions** (validate_variables.go:21-36 = §5.8.1 + §5.8.2), all
+    documents, no hypothesis: for every operation, the loop over its variable definitions reports an
+    error iff a variable name is repeated or a variable's type is unknown or not an input type. -/
+theorem model_variable_definitions_eq_spec (S : Schema) (D : Document) :
+    (∀ d ∈ D, variableDefErrors S [] (Model.varDefsOf d) = []) ↔
+      (Spec.variablesUnique D = true ∧ Spec.variablesAreInputTypes S D = true) := by
+  unfold Spec.variablesUnique Spec.variablesAreInputTypes
+  simp only [List.all_eq_true, variableDefErrors_nil, List.not_mem_nil, not_false_eq_true, implies_true,
+    true_and, varDefsOf_eq]
+  constructor
+  · intro h
+    exact ⟨fun d hd => (h d hd).1, fun d hd => (h d hd).2⟩
+  · rintro ⟨h1, h2⟩ d hd
+    exact ⟨h1 d hd, h2 d hd⟩
+
+/-- **Variables group, usages in one definition body** (validate_variables.go:42-63 with
+    validateVariableUsage and TypeInfo's expected types of nested values = §5.8.3 and §5.8.5 on the
+    usages written in that definition), all well-scoped documents, every variable list: what
+    `validate(def)` accumulates for the body of a definition is exactly what the specification says
+    about the usages written there —
+    * it reports a primary error iff some usage names an undeclared variable or is not allowed at
+      its position (expected types flow through list items, input object fields and — F-04d —
+      object literals in list positions exactly as in the specification),
+    * the encountered names are the names of the usages, in order,
+    * the spreads to follow are the spreads of the body.
+
+    Full statement for an operation (not proved): with `acc` the result of the worklist
+    `varsFragments` started from the operation's body, `primaryFree acc.errs ∧ no unused variable`
+    iff §5.8.3, §5.8.4, §5.8.5 hold for `Spec.opUsages` — missing is that the worklist (each
+    fragment once, last definition, explicit fuel) visits exactly the fragments of the
+    specification's closure `Spec.reachableFrom` (rounds of `fragDeps`); that step is checked
+    differentially. -/
+theorem model_variable_usages_eq_spec {S : Schema} {D : Document} (h : WellScoped S D)
+    (hw : Schema.wfDefaults S = true) {d : Definition} (hd : d ∈ D) (vars : List VarDef) :
+    let a := varsDirectives S vars (Model.defDirs d) ++ varsSet S vars (Model.defScope S d) (Model.defSel d)
+    primaryFree a.errs =
+        (bodyUsages S d).all (fun u => Spec.usageDefinedIn vars u && Spec.usageAllowedIn S vars u) ∧
+      a.encountered = (bodyUsages S d).map (·.name) ∧
+      a.spreads = Spec.spreadsInSet (Model.defSel d) := by
+  intro a
+  obtain ⟨e, hocc⟩ := def_occs h hd
+  obtain ⟨d1, d2, d3⟩ := varsDirectives_spec S hw vars (Model.defDirs d)
+  obtain ⟨f1, f2, f3⟩ := vars_set_flat S vars (Model.defScope S d) (Model.defSel d)
+  rw [e] at f1 f2 f3
+  have d1' : (varsDirectives S vars (Model.defDirs d)).errs =
+      (Spec.usagesDirs S (Spec.defDirs d)).flatMap (usageErrs S vars) := by rw [← defDirs_eq]; exact d1
+  have d2' : (varsDirectives S vars (Model.defDirs d)).encountered =
+      (Spec.usagesDirs S (Spec.defDirs d)).map (·.name) := by rw [← defDirs_eq]; exact d2
+  have g1 : (Spec.occDef S d).flatMap (fun o => (varsOcc S vars o).errs) =
+      ((Spec.occDef S d).flatMap (Spec.usagesOcc S)).flatMap (usageErrs S vars) := by
+    rw [List.flatMap_assoc]
+    exact flatMap_congr_mem _ _ _ (fun o ho => (varsOcc_spec h.wf hw vars (hocc o ho).1 (hocc o ho).2).1)
+  have g2 : (Spec.occDef S d).flatMap (fun o => (varsOcc S vars o).encountered) =
+      ((Spec.occDef S d).flatMap (Spec.usagesOcc S)).map (·.name) := by
+    rw [List.map_flatMap]
+    exact flatMap_congr_mem _ _ _ (fun o ho => (varsOcc_spec h.wf hw vars (hocc o ho).1 (hocc o ho).2).2.1)
+  have g3 : (Spec.occDef S d).flatMap (fun o => (varsOcc S vars o).spreads) = Spec.spreadsInSet (Model.defSel d) := by
+    rw [spreadsInSet_eq, spreadNames_set_flat S (specDefScope S d), ← occDef_eq, ← filterMap_toList]
+    exact flatMap_congr_mem _ _ _ (fun o ho => (varsOcc_spec h.wf hw vars (hocc o ho).1 (hocc o ho).2).2.2)
+  refine ⟨?_, ?_, ?_⟩
+  · show primaryFree (a.errs) = _
+    simp only [a, VarAcc.errs_append, d1', f1, g1, bodyUsages, ← List.flatMap_append]
+    rw [primaryFree_flatMap]
+    apply all_congr_mem
+    intro u _
+    exact usageErrs_ok S vars u
+  · simp only [a, VarAcc.encountered_append, d2', f2, g2, bodyUsages, List.map_append]
+  · simp only [a, VarAcc.spreads_append, d3, f3, g3, List.nil_append]
+
 end ApiFu.C04
